@@ -120,31 +120,64 @@ Section Align.
 
   (* C14: from_raw_part(s) rebuilds the same handle exactly when the header distance computed
      from align_of::<T>() equals the one computed from the stored alignment *)
+  Lemma into_raw_parts_at s v b bl :
+    vec_at s v b bl -> block_ok cfg bl ->
+    exists off, canon_off bl = Some off /\ data_offset (h_align bl) = Some off /\
+                into_raw_parts cfg v s = (Val (PElt b off 0, h_len bl, h_cap bl), s).
+  Proof.
+    intros Hv Hb. destruct (as_ptr_at cfg _ _ _ _ Hcfg Hv Hb) as (off & Hco & Hp).
+    destruct (block_ok_off cfg bl Hcfg Hb) as (off' & Hco' & Hdo & _ & _).
+    rewrite Hco in Hco'. inversion Hco'; subst off'.
+    exists off. split; [exact Hco|]. split; [exact Hdo|]. unfold into_raw_parts.
+    rewrite (bind_val _ _ _ _ _ Hp).
+    rewrite (bind_val _ _ _ _ _ (len_at cfg _ _ _ _ Hcfg Hv Hb)).
+    rewrite (bind_val _ _ _ _ _ (capacity_at cfg _ _ _ _ Hcfg Hv Hb)). reflexivity.
+  Qed.
+
+  Lemma debug_nonnull s b off i :
+    (if release cfg then ret tt else match PElt b off i with PNull => panic | _ => ret tt end) s = (Val tt, s).
+  Proof. destruct (release cfg); reflexivity. Qed.
+
+  Lemma from_raw_part_at s b off i a :
+    next_aligned HEADER_SIZE (ealign cfg) = Some a ->
+    from_raw_part cfg (PElt b off i) s = (Val (At b (off + i * esz cfg - a)), s).
+  Proof.
+    intros H. unfold from_raw_part. rewrite (bind_val _ _ _ _ _ (debug_nonnull s b off i)).
+    rewrite H. rewrite lift_opt_some, bind_ret. unfold byte_of. rewrite bind_ret. reflexivity.
+  Qed.
+
   Lemma raw_roundtrip_same s v b bl three :
     vec_at s v b bl -> block_ok cfg bl ->
     next_aligned HEADER_SIZE (ealign cfg) = next_aligned HEADER_SIZE (h_align bl) ->
     raw_roundtrip cfg v three s = (Val (h_len bl, h_cap bl), s).
   Proof.
     intros Hv Hb Heq. unfold raw_roundtrip.
-    destruct (as_ptr_at cfg _ _ _ _ Hcfg Hv Hb) as (off & Hco & Hp).
-    rewrite (bind_val _ _ _ _ _ Hp).
-    rewrite (bind_val _ _ _ _ _ (len_at cfg _ _ _ _ Hcfg Hv Hb)).
-    rewrite (bind_val _ _ _ _ _ (capacity_at cfg _ _ _ _ Hcfg Hv Hb)).
-    destruct (block_ok_off cfg bl Hcfg Hb) as (off' & Hco' & Hdo & _ & _).
-    rewrite Hco in Hco'. inversion Hco'; subst off'.
-    unfold data_offset in Hdo. rewrite Heq, Hdo. rewrite lift_opt_some, bind_ret.
-    cbv zeta. rewrite Z.sub_diag.
+    destruct (into_raw_parts_at s v b bl Hv Hb) as (off & Hco & Hdo & Hir).
+    rewrite (bind_val _ _ _ _ _ Hir).
+    unfold data_offset in Hdo.
     assert (Hset : set_handle v (Some (At b 0)) s = (Val tt, s)).
     { unfold set_handle, bind, get, set_vecs. simpl. f_equal. destruct s; simpl. f_equal.
       destruct Hv as [Hv0 _]. simpl in Hv0. clear - Hv0.
       revert v Hv0. induction vecs as [|x l IH]; intros [|v] H; simpl in *; try discriminate.
       - inversion H; reflexivity.
       - f_equal. apply IH. exact H. }
-    destruct (three && negb (release cfg)).
-    - rewrite bind_assoc. rewrite (bind_val _ _ _ _ _ (hdr_block_at cfg _ _ _ _ Hcfg Hv Hb)). cbn [snd].
-      rewrite !Z.eqb_refl. cbn [andb]. rewrite bind_ret.
-      rewrite (bind_val _ _ _ _ _ Hset). reflexivity.
-    - rewrite bind_ret. rewrite (bind_val _ _ _ _ _ Hset). reflexivity.
+    assert (Hh : forall (m : M handle), m = (if three then from_raw_parts cfg (PElt b off 0) (h_len bl) (h_cap bl) else from_raw_part cfg (PElt b off 0)) ->
+                 m s = (Val (At b 0), s)).
+    { intros m ->. destruct three.
+      - unfold from_raw_parts. rewrite (bind_val _ _ _ _ _ (debug_nonnull s b off 0)).
+        rewrite Heq, Hdo. rewrite lift_opt_some, bind_ret. unfold byte_of. rewrite bind_ret. cbn [fst snd].
+        replace (off + 0 * esz cfg - off) with 0 by lia.
+        destruct (release cfg).
+        + rewrite !bind_ret. reflexivity.
+        + rewrite bind_assoc. rewrite (bind_val _ _ _ _ _ (hdr_block_at cfg _ _ _ _ Hcfg Hv Hb)). cbn [snd].
+          rewrite Z.eqb_refl. rewrite bind_ret.
+          rewrite bind_assoc. rewrite (bind_val _ _ _ _ _ (hdr_block_at cfg _ _ _ _ Hcfg Hv Hb)). cbn [snd].
+          rewrite Z.eqb_refl. rewrite bind_ret. reflexivity.
+      - unfold from_raw_part. rewrite (bind_val _ _ _ _ _ (debug_nonnull s b off 0)).
+        rewrite Heq, Hdo. rewrite lift_opt_some, bind_ret. unfold byte_of. rewrite bind_ret. cbn [fst snd].
+        replace (off + 0 * esz cfg - off) with 0 by lia. reflexivity. }
+    rewrite (bind_val _ _ _ _ _ (Hh _ eq_refl)).
+    rewrite (bind_val _ _ _ _ _ Hset). reflexivity.
   Qed.
 
   (* ... and when the two distances differ the rebuilt handle points `d` bytes off the block start:
@@ -158,14 +191,11 @@ Section Align.
                len v s' = (UB MisplacedHeader, s').
   Proof.
     intros Hv Hb H1 H2 Hne. unfold raw_roundtrip.
-    destruct (as_ptr_at cfg _ _ _ _ Hcfg Hv Hb) as (off & Hco & Hp).
-    rewrite (bind_val _ _ _ _ _ Hp).
-    rewrite (bind_val _ _ _ _ _ (len_at cfg _ _ _ _ Hcfg Hv Hb)).
-    rewrite (bind_val _ _ _ _ _ (capacity_at cfg _ _ _ _ Hcfg Hv Hb)).
-    destruct (block_ok_off cfg bl Hcfg Hb) as (off' & Hco' & Hdo & _ & _).
-    rewrite Hco in Hco'. inversion Hco'; subst off'.
+    destruct (into_raw_parts_at s v b bl Hv Hb) as (off & Hco & Hdo & Hir).
+    rewrite (bind_val _ _ _ _ _ Hir).
     unfold data_offset in Hdo. rewrite H2 in Hdo. inversion Hdo; subst off.
-    rewrite H1. rewrite lift_opt_some, bind_ret. cbv zeta. cbn [andb]. rewrite bind_ret.
+    cbv beta iota. rewrite (bind_val _ _ _ _ _ (from_raw_part_at s b a2 0 a1 H1)).
+    replace (a2 + 0 * esz cfg - a1) with (a2 - a1) by lia.
     eexists. split; [reflexivity|]. simpl. split; [apply list_put_same|].
     unfold len, vec_handle, bind. cbn [vecs]. rewrite list_put_same. cbn [hdr_block].
     destruct (Z.eqb_spec (a2 - a1) 0); [lia|reflexivity].
